@@ -261,6 +261,9 @@ def dense_close(elt, D, E, tol=1e-11):
                 return "entry (%d,%d): reference %r, implementation %r" % (i, j, D[i][j], E[i][j])
     return None
 
+# float determinants the oracle makes no demand on (reported in the coverage, zero included)
+DET_UNJUDGED_RANGE = "det-float-unjudged (row-norm product >= 1e300 or not finite)"
+DET_UNJUDGED_NONFINITE = "det-float-unjudged (non-finite entry in the dense twin)"
 SOLVE_BACKWARD = 1e-11
 COND_LIMIT = 1e8
 
@@ -408,8 +411,8 @@ def walk(elt, B, ops, items, stats=None):
                     if not (isfinite(x) and abs(x - d) <= 1e-9 * sc + 1e-300):
                         return "%s: determinant %r, dense twin has %r (row-norm product %g)" % (what, x, d, sc)
                     bump("det-float")
-                else: bump("det-float-unjudged (row-norm product >= 1e300 or not finite)")
-            else: bump("det-float-unjudged (non-finite entry in the dense twin)")
+                else: bump(DET_UNJUDGED_RANGE)
+            else: bump(DET_UNJUDGED_NONFINITE)
         elif kind == 'solve':
             x, pos = parse_items_vec(items, pos, elt)
             b = expect[1]; nn = ref.n; D = ref.D
